@@ -228,6 +228,9 @@ func (r *Reader) initFields() error {
 		if ent.Type == "reg" {
 			lastRegEnt = ent
 		}
+		if ent.Type == "chunk" && lastRegEnt == nil {
+			return fmt.Errorf("invalid entry %q: chunk entry without a preceding regular file entry", ent.Name)
+		}
 		if ent.isDataType() && lastRegEnt != nil &&
 			(ent.ChunkOffset > lastRegEnt.Size || ent.ChunkSize > lastRegEnt.Size-ent.ChunkOffset ||
 				(lastRegEnt.Size > 0 && ent.ChunkOffset == lastRegEnt.Size)) {
